@@ -191,11 +191,7 @@ def to_pairs(g, rec):
 def run(rep, tier, build, replay=None):
     rng = random.Random(common.seed() * 7919 + 13)
     gs, exhaustive_n = gen_graphs(rng, tier)
-    per_db = 48
-    dbs = [gs[i:i + per_db] for i in range(0, len(gs), per_db)]
-    nsh = common.NPROC * 2
-    shards = [dbs[i::nsh] for i in range(nsh)]
-    shards = [s for s in shards if s]
+    shards = common.shard_dbs(gs, 48)
     outs = common.run_impl_parallel('run_graph.py', [{'dbs': s, 'want': ['tax']} for s in shards])
     byk = {}
     for o in outs:
